@@ -727,11 +727,14 @@ pub fn to_input(b: &[bool]) -> prio::idpf::IdpfInput {
     if h % 3 != 0 {
         return IdpfInput::from_bools(b);
     }
-    const OFFS: [usize; 8] = [1, 7, 8, 31, 33, 63, 64, 65];
-    let off = OFFS[((h >> 8) % 8) as usize];
+    // Mostly small offsets: a key that is not re-aligned collides with an aligned one only when one string is
+    // the other shifted by the offset with zeros filling the gap (0^d x versus x 0^d), which random candidate
+    // sets contain for d = 1..3 but practically never for d >= 8.
+    const OFFS: [usize; 16] = [1, 1, 1, 1, 2, 2, 2, 3, 3, 5, 8, 31, 33, 63, 64, 65];
+    let off = OFFS[((h >> 8) % 16) as usize];
     let mut bv: BitVec<usize, Lsb0> = BitVec::with_capacity(off + b.len());
     for i in 0..off {
-        bv.push(i % 3 != 1);
+        bv.push((h >> (16 + i % 40)) & 1 == 1);
     }
     for x in b {
         bv.push(*x);
